@@ -54,10 +54,28 @@ T.update({
                 ref="DESIGN.md 6/C13", note=REGMC_NOTE),
 })
 
+T.update({
+    'C09': dict(engine='declmc', technique="bounded-exhaustive enumeration of the declaration grammar; every declaration is run through the real macro + rustc and its verdict compared in both directions with a reference acceptance predicate",
+                text="Tens of thousands of one-field declarations (full product over small bases incl. lo>hi, wrong widths, K in {1,2,3}, strides around the width; boundary product over wide and arbitrary bases; unsupported bases) are compiled; valid => accepted and usable through codegen, invalid => an error located at the declaration. Thorough also builds the macro without overflow checks.",
+                ref="DESIGN.md 6/C09", note=DECL_NOTE),
+    'C10': dict(engine='declmc', technique="bounded-exhaustive enumeration of bitenum declarations (all discriminant sets and orders for N<=3), rustc verdict vs reference predicate in both directions",
+                text="Every discriminant set drawn from [0, 2^N+1] for N in {1,2,3} in several/all declaration orders x every exhaustive form and spelling x cfg'd variants, duplicates, malformed variants, storage boundaries up to u64 and unsupported sizes; accepted valid enums are recompiled with both conversions used.",
+                ref="DESIGN.md 6/C10", note=DECL_NOTE),
+    'C14': dict(engine='declmc', technique="bounded-exhaustive enumeration of layouts x builder call sequences; rustc's verdict on every probe program compared with a reference type-state automaton (E0599 required for rejections)",
+                text="Builder existence over every struct of 1-3 fields on u2 (u3 partly; fully in thorough) with every access x default, plus families for overlapping array elements (adjacent and not), self-overlapping range lists, gaps and declared-width completeness; type-state over the full chain, every prefix, omission, swap, duplicate and, for representative layouts, every call sequence up to length k+1.",
+                ref="DESIGN.md 6/C14", note=DECL_NOTE),
+    'C17': dict(engine='declmc', technique="bounded-exhaustive enumeration of field kind x access x base; presence probes must compile, absence probes must fail with E0599",
+                text="Every field kind (14-16 kinds incl. arrays, multi-range, enums, Option<enum>, nested) x access {r,w,rw,none} x bases x neighbourhood; getter / with_ / set_ / builder-step probes compared with the API reference model.",
+                ref="DESIGN.md 6/C17", note=DECL_NOTE),
+    'C19': dict(engine='regmc', technique="explicit-state enumeration of all raw values (N<=12/16) x debug layouts; {:?} and {:#?} text compared with a derive(Debug) twin filled from the reference register",
+                text="Debug layouts with every readable scalar kind in several declaration orders; for every raw value (all 2^N for small bases, alphabet for wide) both format modes must equal the text rustc's derive(Debug) produces for a twin struct holding the reference values.",
+                ref="DESIGN.md 6/C19", note=REGMC_NOTE + " rustc's derive(Debug) defines the standard struct format."),
+})
+
 
 def main():
     sys.path.insert(0, os.path.join(ROOT, "engine"))
-    from verifkit import props
+    from verifkit import props, props_decl
     props_all = [json.loads(l) for l in open(os.path.join(ROOT, "properties.jsonl"))]
     checks, na = [], []
     for p in props_all:
